@@ -63,19 +63,28 @@ def traces(ctx, prefix, with_retention=False, rounds=8):
         variants = [[]]
         if with_retention:
             variants.append(["-activesuicide"])
+            variants.append(["-sealsuicide"])
         for extra in variants:
             tr = os.path.join(ctx.scratch, "lc-%s-%d.ndjson" % (skip, len(extra)))
             rt = os.path.join(ctx.scratch, "ret-%s-%d.ndjson" % (skip, len(extra)))
             rc, outs, err = vlib.run_driver(rec, ["-skip=%s" % str(skip).lower(), "-rounds", str(rounds), "-seed", str(ctx.seed),
                                                   "-out", tr, "-retention", rt] + extra, timeout=600)
             s = next((o for o in outs if o.get("summary")), None)
+            for o in outs:
+                if o.get("infra"):
+                    raise vlib.Infra("lctrace: " + o["infra"])
+                if "what" in o:
+                    ctx.violation("%s:retention-during-seal:%s" % (prefix, str(o["what"])[:40]), o,
+                                  what="retention hitting a fraction while it is sealed (skip=%s): %s" % (skip, o["what"]))
             if not s:
+                if any("what" in o for o in outs):
+                    continue
                 raise vlib.Infra("lctrace produced no summary: " + err[-500:])
             nev += s["events"] + s["fm_events"]
             ntr += s["fractions"]
             for mod, c, path, what in (("LifecycleTrace.tla", cfg, tr, "life-cycle file operations"),
                                        ("Retention.tla", "Retention.cfg", rt, "rotate/shift order")):
-                if mod == "Retention.tla" and not with_retention:
+                if mod == "Retention.tla" and (not with_retention or "-sealsuicide" in extra):
                     continue
                 res = vlib.validate_trace(ctx, mod, c, path, timeout=600)
                 if not res["accepted"]:
